@@ -17,7 +17,7 @@ DIMS = [
  ("eol", ["LF", "CRLF"]),
  ("nonascii", ["none", "default-value-é-before-token", "default-value-emoji-before-token", "non-ascii-parameter-before-token", "non-ascii-class-name", "non-ascii-in-usefixtures-before"]),
  ("collide", ["none", "test-name-contains-fixture-name", "dependent-fixture-name-contains-fixture-name"]),
- ("body", ["return", "yield", "yield-keyword-on-a-later-line-than-its-statement"]),
+ ("body", ["return", "yield", "yield-keyword-on-a-later-line-than-its-statement", "whole-function-on-one-line"]),
  ("indirect", ["none", "indirect=True, second of two names in one string", "indirect list, names in one string with spaces", "indirect=True, names as a tuple"]),
  ("col0", ["none", "usefixtures string at column 0 of a continuation line", "body use at column 0 inside parentheses"]),
  ("depsig", ["one-line", "one-param-per-line", "closing-paren-own-line", "first-param-on-def-line"]),
@@ -48,8 +48,13 @@ def build(a):
     else:
         L.append(I + "@pytest.fixture")
     kw = "async def" if a["async"] == 1 else "def"
-    L.append(I + "%s fx_name(%s) -> int:" % (kw, self_))
-    if a["body"] == 2:
+    if a["body"] == 3:
+        L.append(I + "%s fx_name(%s) -> int: return 1" % (kw, self_))
+    else:
+        L.append(I + "%s fx_name(%s) -> int:" % (kw, self_))
+    if a["body"] == 3:
+        pass
+    elif a["body"] == 2:
         L.append(I + unit + "received = ("); L.append(I + unit * 2 + "yield 1"); L.append(I + unit + ")")
     else:
         L.append(I + unit + ("yield 1" if a["body"] == 1 else "return 1"))
